@@ -12,12 +12,12 @@ theorem reset_facts (x : Side) :
   cases x <;> simp [Side.resetIfOpen]
 
 macro "inv_g" : tactic => `(tactic|
-  (constructor <;> simp only [failing, joining, retErr, reduceCtorEq, false_or, or_false, true_or, or_true] at * <;> grind))
+  (constructor <;> simp only [failing, joining, retErr, retd, reduceCtorEq, false_or, or_false, true_or, or_true] at * <;> grind))
 
 theorem inv_cHsCancel {s : St} (h : Inv s) (g : guard s .cHsCancel = true) : Inv (apply s .cHsCancel) := by
-  obtain ⟨pre, noStr, str, mid, done, hdr, fail, join, dead, eof, q, cnt, cc, ub, rs, b1, b2⟩ := h
+  obtain ⟨pre, noStr, str, mid, done, hdr, fail, join, dead, eof, q, cnt, cc, ub, rs, re, rd, b1, b2⟩ := h
   rcases s with ⟨hasBody, ctx, cpc, wat, upl, send, recv, respHdr, reqDone, closes, callerClosed, readRes, writes⟩
-  simp only at pre noStr str mid done hdr fail join dead eof q cnt cc ub rs b1 b2
+  simp only at pre noStr str mid done hdr fail join dead eof q cnt cc ub rs re rd b1 b2
   simp only [CancelH3.guard, CancelH3.evGuard, recvDead, Bool.and_eq_true, beq_iff_eq, Bool.or_eq_true, bne_iff_ne,
     Bool.not_eq_true', ne_eq] at g
   obtain ⟨rfl, _⟩ := g
@@ -25,9 +25,9 @@ theorem inv_cHsCancel {s : St} (h : Inv s) (g : guard s .cHsCancel = true) : Inv
   cases hasBody <;> (try simp only [if_true, if_false]) <;> inv_g
 
 theorem inv_cOpenCancel {s : St} (h : Inv s) (g : guard s .cOpenCancel = true) : Inv (apply s .cOpenCancel) := by
-  obtain ⟨pre, noStr, str, mid, done, hdr, fail, join, dead, eof, q, cnt, cc, ub, rs, b1, b2⟩ := h
+  obtain ⟨pre, noStr, str, mid, done, hdr, fail, join, dead, eof, q, cnt, cc, ub, rs, re, rd, b1, b2⟩ := h
   rcases s with ⟨hasBody, ctx, cpc, wat, upl, send, recv, respHdr, reqDone, closes, callerClosed, readRes, writes⟩
-  simp only at pre noStr str mid done hdr fail join dead eof q cnt cc ub rs b1 b2
+  simp only at pre noStr str mid done hdr fail join dead eof q cnt cc ub rs re rd b1 b2
   simp only [CancelH3.guard, CancelH3.evGuard, recvDead, Bool.and_eq_true, beq_iff_eq, Bool.or_eq_true, bne_iff_ne,
     Bool.not_eq_true', ne_eq] at g
   obtain ⟨rfl, _⟩ := g
@@ -35,9 +35,9 @@ theorem inv_cOpenCancel {s : St} (h : Inv s) (g : guard s .cOpenCancel = true) :
   cases hasBody <;> (try simp only [if_true, if_false]) <;> inv_g
 
 theorem inv_cSendHdr {s : St} (h : Inv s) (g : guard s .cSendHdr = true) : Inv (apply s .cSendHdr) := by
-  obtain ⟨pre, noStr, str, mid, done, hdr, fail, join, dead, eof, q, cnt, cc, ub, rs, b1, b2⟩ := h
+  obtain ⟨pre, noStr, str, mid, done, hdr, fail, join, dead, eof, q, cnt, cc, ub, rs, re, rd, b1, b2⟩ := h
   rcases s with ⟨hasBody, ctx, cpc, wat, upl, send, recv, respHdr, reqDone, closes, callerClosed, readRes, writes⟩
-  simp only at pre noStr str mid done hdr fail join dead eof q cnt cc ub rs b1 b2
+  simp only at pre noStr str mid done hdr fail join dead eof q cnt cc ub rs re rd b1 b2
   simp only [CancelH3.guard, CancelH3.evGuard, recvDead, Bool.and_eq_true, beq_iff_eq, Bool.or_eq_true, bne_iff_ne,
     Bool.not_eq_true', ne_eq] at g
   subst g
@@ -45,9 +45,9 @@ theorem inv_cSendHdr {s : St} (h : Inv s) (g : guard s .cSendHdr = true) : Inv (
   cases hasBody <;> cases send <;> (try simp only [if_true, if_false, beq_self_eq_true, reduceCtorEq, beq_iff_eq, Bool.false_eq_true]) <;> inv_g
 
 theorem inv_cRespOk {s : St} (h : Inv s) (g : guard s .cRespOk = true) : Inv (apply s .cRespOk) := by
-  obtain ⟨pre, noStr, str, mid, done, hdr, fail, join, dead, eof, q, cnt, cc, ub, rs, b1, b2⟩ := h
+  obtain ⟨pre, noStr, str, mid, done, hdr, fail, join, dead, eof, q, cnt, cc, ub, rs, re, rd, b1, b2⟩ := h
   rcases s with ⟨hasBody, ctx, cpc, wat, upl, send, recv, respHdr, reqDone, closes, callerClosed, readRes, writes⟩
-  simp only at pre noStr str mid done hdr fail join dead eof q cnt cc ub rs b1 b2
+  simp only at pre noStr str mid done hdr fail join dead eof q cnt cc ub rs re rd b1 b2
   simp only [CancelH3.guard, CancelH3.evGuard, recvDead, Bool.and_eq_true, beq_iff_eq, Bool.or_eq_true, bne_iff_ne,
     Bool.not_eq_true', ne_eq] at g
   obtain ⟨⟨rfl, _⟩, _⟩ := g
@@ -55,9 +55,9 @@ theorem inv_cRespOk {s : St} (h : Inv s) (g : guard s .cRespOk = true) : Inv (ap
   inv_g
 
 theorem inv_cRespFail {s : St} (h : Inv s) (g : guard s .cRespFail = true) : Inv (apply s .cRespFail) := by
-  obtain ⟨pre, noStr, str, mid, done, hdr, fail, join, dead, eof, q, cnt, cc, ub, rs, b1, b2⟩ := h
+  obtain ⟨pre, noStr, str, mid, done, hdr, fail, join, dead, eof, q, cnt, cc, ub, rs, re, rd, b1, b2⟩ := h
   rcases s with ⟨hasBody, ctx, cpc, wat, upl, send, recv, respHdr, reqDone, closes, callerClosed, readRes, writes⟩
-  simp only at pre noStr str mid done hdr fail join dead eof q cnt cc ub rs b1 b2
+  simp only at pre noStr str mid done hdr fail join dead eof q cnt cc ub rs re rd b1 b2
   simp only [CancelH3.guard, CancelH3.evGuard, recvDead, Bool.and_eq_true, beq_iff_eq, Bool.or_eq_true, bne_iff_ne,
     Bool.not_eq_true', ne_eq] at g
   obtain ⟨rfl, g⟩ := g
@@ -65,9 +65,9 @@ theorem inv_cRespFail {s : St} (h : Inv s) (g : guard s .cRespFail = true) : Inv
   cases send <;> (try simp only [Side.cancelIfOpen]) <;> inv_g
 
 theorem inv_cFailSig {s : St} (h : Inv s) (g : guard s .cFailSig = true) : Inv (apply s .cFailSig) := by
-  obtain ⟨pre, noStr, str, mid, done, hdr, fail, join, dead, eof, q, cnt, cc, ub, rs, b1, b2⟩ := h
+  obtain ⟨pre, noStr, str, mid, done, hdr, fail, join, dead, eof, q, cnt, cc, ub, rs, re, rd, b1, b2⟩ := h
   rcases s with ⟨hasBody, ctx, cpc, wat, upl, send, recv, respHdr, reqDone, closes, callerClosed, readRes, writes⟩
-  simp only at pre noStr str mid done hdr fail join dead eof q cnt cc ub rs b1 b2
+  simp only at pre noStr str mid done hdr fail join dead eof q cnt cc ub rs re rd b1 b2
   simp only [CancelH3.guard, CancelH3.evGuard, recvDead, Bool.and_eq_true, beq_iff_eq, Bool.or_eq_true, bne_iff_ne,
     Bool.not_eq_true', ne_eq] at g
   cases cpc <;> simp at g
@@ -75,9 +75,9 @@ theorem inv_cFailSig {s : St} (h : Inv s) (g : guard s .cFailSig = true) : Inv (
   inv_g
 
 theorem inv_cFailJoin {s : St} (h : Inv s) (g : guard s .cFailJoin = true) : Inv (apply s .cFailJoin) := by
-  obtain ⟨pre, noStr, str, mid, done, hdr, fail, join, dead, eof, q, cnt, cc, ub, rs, b1, b2⟩ := h
+  obtain ⟨pre, noStr, str, mid, done, hdr, fail, join, dead, eof, q, cnt, cc, ub, rs, re, rd, b1, b2⟩ := h
   rcases s with ⟨hasBody, ctx, cpc, wat, upl, send, recv, respHdr, reqDone, closes, callerClosed, readRes, writes⟩
-  simp only at pre noStr str mid done hdr fail join dead eof q cnt cc ub rs b1 b2
+  simp only at pre noStr str mid done hdr fail join dead eof q cnt cc ub rs re rd b1 b2
   simp only [CancelH3.guard, CancelH3.evGuard, recvDead, Bool.and_eq_true, beq_iff_eq, Bool.or_eq_true, bne_iff_ne,
     Bool.not_eq_true', ne_eq] at g
   cases cpc <;> simp at g
@@ -85,9 +85,9 @@ theorem inv_cFailJoin {s : St} (h : Inv s) (g : guard s .cFailJoin = true) : Inv
   inv_g
 
 theorem inv_cBodyReadFail {s : St} (h : Inv s) (g : guard s .cBodyReadFail = true) : Inv (apply s .cBodyReadFail) := by
-  obtain ⟨pre, noStr, str, mid, done, hdr, fail, join, dead, eof, q, cnt, cc, ub, rs, b1, b2⟩ := h
+  obtain ⟨pre, noStr, str, mid, done, hdr, fail, join, dead, eof, q, cnt, cc, ub, rs, re, rd, b1, b2⟩ := h
   rcases s with ⟨hasBody, ctx, cpc, wat, upl, send, recv, respHdr, reqDone, closes, callerClosed, readRes, writes⟩
-  simp only at pre noStr str mid done hdr fail join dead eof q cnt cc ub rs b1 b2
+  simp only at pre noStr str mid done hdr fail join dead eof q cnt cc ub rs re rd b1 b2
   simp only [CancelH3.guard, CancelH3.evGuard, recvDead, Bool.and_eq_true, beq_iff_eq, Bool.or_eq_true, bne_iff_ne,
     Bool.not_eq_true', ne_eq] at g
   obtain ⟨⟨rfl, rfl⟩, _⟩ := g
@@ -95,9 +95,9 @@ theorem inv_cBodyReadFail {s : St} (h : Inv s) (g : guard s .cBodyReadFail = tru
   inv_g
 
 theorem inv_wFireW {s : St} (h : Inv s) (g : guard s .wFireW = true) : Inv (apply s .wFireW) := by
-  obtain ⟨pre, noStr, str, mid, done, hdr, fail, join, dead, eof, q, cnt, cc, ub, rs, b1, b2⟩ := h
+  obtain ⟨pre, noStr, str, mid, done, hdr, fail, join, dead, eof, q, cnt, cc, ub, rs, re, rd, b1, b2⟩ := h
   rcases s with ⟨hasBody, ctx, cpc, wat, upl, send, recv, respHdr, reqDone, closes, callerClosed, readRes, writes⟩
-  simp only at pre noStr str mid done hdr fail join dead eof q cnt cc ub rs b1 b2
+  simp only at pre noStr str mid done hdr fail join dead eof q cnt cc ub rs re rd b1 b2
   simp only [CancelH3.guard, CancelH3.evGuard, recvDead, Bool.and_eq_true, beq_iff_eq, Bool.or_eq_true, bne_iff_ne,
     Bool.not_eq_true', ne_eq] at g
   obtain ⟨rfl, _⟩ := g
@@ -105,9 +105,9 @@ theorem inv_wFireW {s : St} (h : Inv s) (g : guard s .wFireW = true) : Inv (appl
   cases send <;> (try simp only [Side.cancelIfOpen]) <;> inv_g
 
 theorem inv_wFireR {s : St} (h : Inv s) (g : guard s .wFireR = true) : Inv (apply s .wFireR) := by
-  obtain ⟨pre, noStr, str, mid, done, hdr, fail, join, dead, eof, q, cnt, cc, ub, rs, b1, b2⟩ := h
+  obtain ⟨pre, noStr, str, mid, done, hdr, fail, join, dead, eof, q, cnt, cc, ub, rs, re, rd, b1, b2⟩ := h
   rcases s with ⟨hasBody, ctx, cpc, wat, upl, send, recv, respHdr, reqDone, closes, callerClosed, readRes, writes⟩
-  simp only at pre noStr str mid done hdr fail join dead eof q cnt cc ub rs b1 b2
+  simp only at pre noStr str mid done hdr fail join dead eof q cnt cc ub rs re rd b1 b2
   simp only [CancelH3.guard, CancelH3.evGuard, recvDead, Bool.and_eq_true, beq_iff_eq, Bool.or_eq_true, bne_iff_ne,
     Bool.not_eq_true', ne_eq] at g
   subst g
@@ -115,9 +115,9 @@ theorem inv_wFireR {s : St} (h : Inv s) (g : guard s .wFireR = true) : Inv (appl
   cases recv <;> (try simp only [Side.cancelIfOpen]) <;> inv_g
 
 theorem inv_wExit {s : St} (h : Inv s) (g : guard s .wExit = true) : Inv (apply s .wExit) := by
-  obtain ⟨pre, noStr, str, mid, done, hdr, fail, join, dead, eof, q, cnt, cc, ub, rs, b1, b2⟩ := h
+  obtain ⟨pre, noStr, str, mid, done, hdr, fail, join, dead, eof, q, cnt, cc, ub, rs, re, rd, b1, b2⟩ := h
   rcases s with ⟨hasBody, ctx, cpc, wat, upl, send, recv, respHdr, reqDone, closes, callerClosed, readRes, writes⟩
-  simp only at pre noStr str mid done hdr fail join dead eof q cnt cc ub rs b1 b2
+  simp only at pre noStr str mid done hdr fail join dead eof q cnt cc ub rs re rd b1 b2
   simp only [CancelH3.guard, CancelH3.evGuard, recvDead, Bool.and_eq_true, beq_iff_eq, Bool.or_eq_true, bne_iff_ne,
     Bool.not_eq_true', ne_eq] at g
   obtain ⟨rfl, _⟩ := g
@@ -125,9 +125,9 @@ theorem inv_wExit {s : St} (h : Inv s) (g : guard s .wExit = true) : Inv (apply 
   inv_g
 
 theorem inv_uRead {s : St} (h : Inv s) (g : guard s .uRead = true) : Inv (apply s .uRead) := by
-  obtain ⟨pre, noStr, str, mid, done, hdr, fail, join, dead, eof, q, cnt, cc, ub, rs, b1, b2⟩ := h
+  obtain ⟨pre, noStr, str, mid, done, hdr, fail, join, dead, eof, q, cnt, cc, ub, rs, re, rd, b1, b2⟩ := h
   rcases s with ⟨hasBody, ctx, cpc, wat, upl, send, recv, respHdr, reqDone, closes, callerClosed, readRes, writes⟩
-  simp only at pre noStr str mid done hdr fail join dead eof q cnt cc ub rs b1 b2
+  simp only at pre noStr str mid done hdr fail join dead eof q cnt cc ub rs re rd b1 b2
   simp only [CancelH3.guard, CancelH3.evGuard, recvDead, Bool.and_eq_true, beq_iff_eq, Bool.or_eq_true, bne_iff_ne,
     Bool.not_eq_true', ne_eq] at g
   subst g
@@ -135,9 +135,9 @@ theorem inv_uRead {s : St} (h : Inv s) (g : guard s .uRead = true) : Inv (apply 
   inv_g
 
 theorem inv_uEOF {s : St} (h : Inv s) (g : guard s .uEOF = true) : Inv (apply s .uEOF) := by
-  obtain ⟨pre, noStr, str, mid, done, hdr, fail, join, dead, eof, q, cnt, cc, ub, rs, b1, b2⟩ := h
+  obtain ⟨pre, noStr, str, mid, done, hdr, fail, join, dead, eof, q, cnt, cc, ub, rs, re, rd, b1, b2⟩ := h
   rcases s with ⟨hasBody, ctx, cpc, wat, upl, send, recv, respHdr, reqDone, closes, callerClosed, readRes, writes⟩
-  simp only at pre noStr str mid done hdr fail join dead eof q cnt cc ub rs b1 b2
+  simp only at pre noStr str mid done hdr fail join dead eof q cnt cc ub rs re rd b1 b2
   simp only [CancelH3.guard, CancelH3.evGuard, recvDead, Bool.and_eq_true, beq_iff_eq, Bool.or_eq_true, bne_iff_ne,
     Bool.not_eq_true', ne_eq] at g
   subst g
@@ -145,9 +145,9 @@ theorem inv_uEOF {s : St} (h : Inv s) (g : guard s .uEOF = true) : Inv (apply s 
   inv_g
 
 theorem inv_uWriteFail {s : St} (h : Inv s) (g : guard s .uWriteFail = true) : Inv (apply s .uWriteFail) := by
-  obtain ⟨pre, noStr, str, mid, done, hdr, fail, join, dead, eof, q, cnt, cc, ub, rs, b1, b2⟩ := h
+  obtain ⟨pre, noStr, str, mid, done, hdr, fail, join, dead, eof, q, cnt, cc, ub, rs, re, rd, b1, b2⟩ := h
   rcases s with ⟨hasBody, ctx, cpc, wat, upl, send, recv, respHdr, reqDone, closes, callerClosed, readRes, writes⟩
-  simp only at pre noStr str mid done hdr fail join dead eof q cnt cc ub rs b1 b2
+  simp only at pre noStr str mid done hdr fail join dead eof q cnt cc ub rs re rd b1 b2
   simp only [CancelH3.guard, CancelH3.evGuard, recvDead, Bool.and_eq_true, beq_iff_eq, Bool.or_eq_true, bne_iff_ne,
     Bool.not_eq_true', ne_eq] at g
   obtain ⟨rfl, _⟩ := g
@@ -155,9 +155,9 @@ theorem inv_uWriteFail {s : St} (h : Inv s) (g : guard s .uWriteFail = true) : I
   inv_g
 
 theorem inv_uClose {s : St} (h : Inv s) (g : guard s .uClose = true) : Inv (apply s .uClose) := by
-  obtain ⟨pre, noStr, str, mid, done, hdr, fail, join, dead, eof, q, cnt, cc, ub, rs, b1, b2⟩ := h
+  obtain ⟨pre, noStr, str, mid, done, hdr, fail, join, dead, eof, q, cnt, cc, ub, rs, re, rd, b1, b2⟩ := h
   rcases s with ⟨hasBody, ctx, cpc, wat, upl, send, recv, respHdr, reqDone, closes, callerClosed, readRes, writes⟩
-  simp only at pre noStr str mid done hdr fail join dead eof q cnt cc ub rs b1 b2
+  simp only at pre noStr str mid done hdr fail join dead eof q cnt cc ub rs re rd b1 b2
   simp only [CancelH3.guard, CancelH3.evGuard, recvDead, Bool.and_eq_true, beq_iff_eq, Bool.or_eq_true, bne_iff_ne,
     Bool.not_eq_true', ne_eq] at g
   subst g
@@ -165,9 +165,9 @@ theorem inv_uClose {s : St} (h : Inv s) (g : guard s .uClose = true) : Inv (appl
   inv_g
 
 theorem inv_uFin {s : St} (h : Inv s) (g : guard s .uFin = true) : Inv (apply s .uFin) := by
-  obtain ⟨pre, noStr, str, mid, done, hdr, fail, join, dead, eof, q, cnt, cc, ub, rs, b1, b2⟩ := h
+  obtain ⟨pre, noStr, str, mid, done, hdr, fail, join, dead, eof, q, cnt, cc, ub, rs, re, rd, b1, b2⟩ := h
   rcases s with ⟨hasBody, ctx, cpc, wat, upl, send, recv, respHdr, reqDone, closes, callerClosed, readRes, writes⟩
-  simp only at pre noStr str mid done hdr fail join dead eof q cnt cc ub rs b1 b2
+  simp only at pre noStr str mid done hdr fail join dead eof q cnt cc ub rs re rd b1 b2
   simp only [CancelH3.guard, CancelH3.evGuard, recvDead, Bool.and_eq_true, beq_iff_eq, Bool.or_eq_true, bne_iff_ne,
     Bool.not_eq_true', ne_eq] at g
   subst g
@@ -194,18 +194,18 @@ theorem inv_act {s : St} {a : Act} (h : Inv s) (g : guard s a = true) : Inv (app
   · exact inv_uFin h g
 
 theorem inv_ev_cancel {s : St} (e : CtxErr) (h : Inv s) (g : evGuard s (.cancel e) = true) : Inv (evApply s (.cancel e)) := by
-  obtain ⟨pre, noStr, str, mid, done, hdr, fail, join, dead, eof, q, cnt, cc, ub, rs, b1, b2⟩ := h
+  obtain ⟨pre, noStr, str, mid, done, hdr, fail, join, dead, eof, q, cnt, cc, ub, rs, re, rd, b1, b2⟩ := h
   rcases s with ⟨hasBody, ctx, cpc, wat, upl, send, recv, respHdr, reqDone, closes, callerClosed, readRes, writes⟩
-  simp only at pre noStr str mid done hdr fail join dead eof q cnt cc ub rs b1 b2
+  simp only at pre noStr str mid done hdr fail join dead eof q cnt cc ub rs re rd b1 b2
   simp only [CancelH3.guard, CancelH3.evGuard, recvDead, Bool.and_eq_true, beq_iff_eq, Bool.or_eq_true, bne_iff_ne,
     Bool.not_eq_true', ne_eq] at g
   simp only [CancelH3.apply, CancelH3.evApply, closeBody, finalErr, recvErr]
   inv_g
 
 theorem inv_ev_hsDone {s : St}  (h : Inv s) (g : evGuard s (.hsDone) = true) : Inv (evApply s (.hsDone)) := by
-  obtain ⟨pre, noStr, str, mid, done, hdr, fail, join, dead, eof, q, cnt, cc, ub, rs, b1, b2⟩ := h
+  obtain ⟨pre, noStr, str, mid, done, hdr, fail, join, dead, eof, q, cnt, cc, ub, rs, re, rd, b1, b2⟩ := h
   rcases s with ⟨hasBody, ctx, cpc, wat, upl, send, recv, respHdr, reqDone, closes, callerClosed, readRes, writes⟩
-  simp only at pre noStr str mid done hdr fail join dead eof q cnt cc ub rs b1 b2
+  simp only at pre noStr str mid done hdr fail join dead eof q cnt cc ub rs re rd b1 b2
   simp only [CancelH3.guard, CancelH3.evGuard, recvDead, Bool.and_eq_true, beq_iff_eq, Bool.or_eq_true, bne_iff_ne,
     Bool.not_eq_true', ne_eq] at g
   subst g
@@ -213,9 +213,9 @@ theorem inv_ev_hsDone {s : St}  (h : Inv s) (g : evGuard s (.hsDone) = true) : I
   inv_g
 
 theorem inv_ev_streamOpen {s : St}  (h : Inv s) (g : evGuard s (.streamOpen) = true) : Inv (evApply s (.streamOpen)) := by
-  obtain ⟨pre, noStr, str, mid, done, hdr, fail, join, dead, eof, q, cnt, cc, ub, rs, b1, b2⟩ := h
+  obtain ⟨pre, noStr, str, mid, done, hdr, fail, join, dead, eof, q, cnt, cc, ub, rs, re, rd, b1, b2⟩ := h
   rcases s with ⟨hasBody, ctx, cpc, wat, upl, send, recv, respHdr, reqDone, closes, callerClosed, readRes, writes⟩
-  simp only at pre noStr str mid done hdr fail join dead eof q cnt cc ub rs b1 b2
+  simp only at pre noStr str mid done hdr fail join dead eof q cnt cc ub rs re rd b1 b2
   simp only [CancelH3.guard, CancelH3.evGuard, recvDead, Bool.and_eq_true, beq_iff_eq, Bool.or_eq_true, bne_iff_ne,
     Bool.not_eq_true', ne_eq] at g
   subst g
@@ -223,9 +223,9 @@ theorem inv_ev_streamOpen {s : St}  (h : Inv s) (g : evGuard s (.streamOpen) = t
   inv_g
 
 theorem inv_ev_credit {s : St}  (h : Inv s) (g : evGuard s (.credit) = true) : Inv (evApply s (.credit)) := by
-  obtain ⟨pre, noStr, str, mid, done, hdr, fail, join, dead, eof, q, cnt, cc, ub, rs, b1, b2⟩ := h
+  obtain ⟨pre, noStr, str, mid, done, hdr, fail, join, dead, eof, q, cnt, cc, ub, rs, re, rd, b1, b2⟩ := h
   rcases s with ⟨hasBody, ctx, cpc, wat, upl, send, recv, respHdr, reqDone, closes, callerClosed, readRes, writes⟩
-  simp only at pre noStr str mid done hdr fail join dead eof q cnt cc ub rs b1 b2
+  simp only at pre noStr str mid done hdr fail join dead eof q cnt cc ub rs re rd b1 b2
   simp only [CancelH3.guard, CancelH3.evGuard, recvDead, Bool.and_eq_true, beq_iff_eq, Bool.or_eq_true, bne_iff_ne,
     Bool.not_eq_true', ne_eq] at g
   obtain ⟨rfl, rfl⟩ := g
@@ -233,9 +233,9 @@ theorem inv_ev_credit {s : St}  (h : Inv s) (g : evGuard s (.credit) = true) : I
   inv_g
 
 theorem inv_ev_peerHeaders {s : St}  (h : Inv s) (g : evGuard s (.peerHeaders) = true) : Inv (evApply s (.peerHeaders)) := by
-  obtain ⟨pre, noStr, str, mid, done, hdr, fail, join, dead, eof, q, cnt, cc, ub, rs, b1, b2⟩ := h
+  obtain ⟨pre, noStr, str, mid, done, hdr, fail, join, dead, eof, q, cnt, cc, ub, rs, re, rd, b1, b2⟩ := h
   rcases s with ⟨hasBody, ctx, cpc, wat, upl, send, recv, respHdr, reqDone, closes, callerClosed, readRes, writes⟩
-  simp only at pre noStr str mid done hdr fail join dead eof q cnt cc ub rs b1 b2
+  simp only at pre noStr str mid done hdr fail join dead eof q cnt cc ub rs re rd b1 b2
   simp only [CancelH3.guard, CancelH3.evGuard, recvDead, Bool.and_eq_true, beq_iff_eq, Bool.or_eq_true, bne_iff_ne,
     Bool.not_eq_true', ne_eq] at g
   obtain ⟨rfl, _⟩ := g
@@ -243,9 +243,9 @@ theorem inv_ev_peerHeaders {s : St}  (h : Inv s) (g : evGuard s (.peerHeaders) =
   inv_g
 
 theorem inv_ev_peerEnd {s : St}  (h : Inv s) (g : evGuard s (.peerEnd) = true) : Inv (evApply s (.peerEnd)) := by
-  obtain ⟨pre, noStr, str, mid, done, hdr, fail, join, dead, eof, q, cnt, cc, ub, rs, b1, b2⟩ := h
+  obtain ⟨pre, noStr, str, mid, done, hdr, fail, join, dead, eof, q, cnt, cc, ub, rs, re, rd, b1, b2⟩ := h
   rcases s with ⟨hasBody, ctx, cpc, wat, upl, send, recv, respHdr, reqDone, closes, callerClosed, readRes, writes⟩
-  simp only at pre noStr str mid done hdr fail join dead eof q cnt cc ub rs b1 b2
+  simp only at pre noStr str mid done hdr fail join dead eof q cnt cc ub rs re rd b1 b2
   simp only [CancelH3.guard, CancelH3.evGuard, recvDead, Bool.and_eq_true, beq_iff_eq, Bool.or_eq_true, bne_iff_ne,
     Bool.not_eq_true', ne_eq] at g
   obtain ⟨rfl, _⟩ := g
@@ -253,9 +253,9 @@ theorem inv_ev_peerEnd {s : St}  (h : Inv s) (g : evGuard s (.peerEnd) = true) :
   inv_g
 
 theorem inv_ev_peerReset {s : St}  (h : Inv s) (g : evGuard s (.peerReset) = true) : Inv (evApply s (.peerReset)) := by
-  obtain ⟨pre, noStr, str, mid, done, hdr, fail, join, dead, eof, q, cnt, cc, ub, rs, b1, b2⟩ := h
+  obtain ⟨pre, noStr, str, mid, done, hdr, fail, join, dead, eof, q, cnt, cc, ub, rs, re, rd, b1, b2⟩ := h
   rcases s with ⟨hasBody, ctx, cpc, wat, upl, send, recv, respHdr, reqDone, closes, callerClosed, readRes, writes⟩
-  simp only at pre noStr str mid done hdr fail join dead eof q cnt cc ub rs b1 b2
+  simp only at pre noStr str mid done hdr fail join dead eof q cnt cc ub rs re rd b1 b2
   simp only [CancelH3.guard, CancelH3.evGuard, recvDead, Bool.and_eq_true, beq_iff_eq, Bool.or_eq_true, bne_iff_ne,
     Bool.not_eq_true', ne_eq] at g
   simp only [CancelH3.apply, CancelH3.evApply, closeBody, finalErr, recvErr]
@@ -266,9 +266,9 @@ theorem inv_ev_peerReset {s : St}  (h : Inv s) (g : evGuard s (.peerReset) = tru
   inv_g
 
 theorem inv_ev_callerClose {s : St}  (h : Inv s) (g : evGuard s (.callerClose) = true) : Inv (evApply s (.callerClose)) := by
-  obtain ⟨pre, noStr, str, mid, done, hdr, fail, join, dead, eof, q, cnt, cc, ub, rs, b1, b2⟩ := h
+  obtain ⟨pre, noStr, str, mid, done, hdr, fail, join, dead, eof, q, cnt, cc, ub, rs, re, rd, b1, b2⟩ := h
   rcases s with ⟨hasBody, ctx, cpc, wat, upl, send, recv, respHdr, reqDone, closes, callerClosed, readRes, writes⟩
-  simp only at pre noStr str mid done hdr fail join dead eof q cnt cc ub rs b1 b2
+  simp only at pre noStr str mid done hdr fail join dead eof q cnt cc ub rs re rd b1 b2
   simp only [CancelH3.guard, CancelH3.evGuard, recvDead, Bool.and_eq_true, beq_iff_eq, Bool.or_eq_true, bne_iff_ne,
     Bool.not_eq_true', ne_eq] at g
   subst g
@@ -276,9 +276,9 @@ theorem inv_ev_callerClose {s : St}  (h : Inv s) (g : evGuard s (.callerClose) =
   cases recv <;> (try simp only [Side.cancelIfOpen]) <;> inv_g
 
 theorem inv_ev_callerEOF {s : St}  (h : Inv s) (g : evGuard s (.callerEOF) = true) : Inv (evApply s (.callerEOF)) := by
-  obtain ⟨pre, noStr, str, mid, done, hdr, fail, join, dead, eof, q, cnt, cc, ub, rs, b1, b2⟩ := h
+  obtain ⟨pre, noStr, str, mid, done, hdr, fail, join, dead, eof, q, cnt, cc, ub, rs, re, rd, b1, b2⟩ := h
   rcases s with ⟨hasBody, ctx, cpc, wat, upl, send, recv, respHdr, reqDone, closes, callerClosed, readRes, writes⟩
-  simp only at pre noStr str mid done hdr fail join dead eof q cnt cc ub rs b1 b2
+  simp only at pre noStr str mid done hdr fail join dead eof q cnt cc ub rs re rd b1 b2
   simp only [CancelH3.guard, CancelH3.evGuard, recvDead, Bool.and_eq_true, beq_iff_eq, Bool.or_eq_true, bne_iff_ne,
     Bool.not_eq_true', ne_eq] at g
   obtain ⟨rfl, rfl⟩ := g
